@@ -17,8 +17,8 @@ from .. import build as B
 
 PID = "C12"
 C = SECP
-ONE, NM1, FILL, ODD, T_N, T_MAX, T_CANCEL = range(7)
-KIND = ["1", "n-1", "filler", "odd-maker", "n(invalid)", "2^256-1(invalid)", "cancel(Q'=inf)"]
+ONE, NM1, FILL, ODD, T_N, T_MAX, T_CANCEL, ZERO = range(8)
+KIND = ["1", "n-1", "filler", "odd-maker", "n(invalid)", "2^256-1(invalid)", "cancel(Q'=inf)", "0"]
 COUNTERS = [0, 1, 2**32, 2**32 + 1, 2**63, 2**64 - 1]
 
 
@@ -85,6 +85,8 @@ class PW:
         g = N - 1 if (xonly and not M.has_even_y(kc.Q)) else 1
         if kind == ONE:
             return 1
+        if kind == ZERO:
+            return 0          # a zero tweak is legal: the key is unchanged, but x-only tweaking still normalises to even y
         if kind == NM1:
             return N - 1
         if kind == FILL:
@@ -753,6 +755,12 @@ def main():
                      for s in ((2, (0, 1)), (3, (0, 1, 0))) for w in words3 for adp in (0, 1)]
             phase(run, "%s/sessions-x-tweak-words" % cfg, run_session, cases, setup=psetup(cfg),
                       rule="signers {2 distinct, 3 with the first key repeated} x ALL tweak words of length 0..%d over {plain,xonly} x t in {1, n-1, filler, the t that makes y odd} x adaptor {absent,present}; aggregate key, cache (Q, second key, L, gacc, tacc), nonces, aggnonce, session (b, R, e, tweak term), partial sigs, final sig byte-compared with the model; full verification matrix; non-trivial = valid final / adapted signature" % (4 if thorough else 3))
+        # ---- P1b zero tweaks (legal): every word of length 1..3 over {plain,xonly} x {0, odd-maker}
+        cases = [(s, w, 1, adp, GEN_ALL, 0, None, True)
+                 for s in ((2, (0, 1)),) for w in all_words(3, kinds=(ZERO, ODD)) for adp in ((0, 1) if main_cfg else (0,))
+                 if any(k == ZERO for _, k in w)]
+        phase(run, "%s/zero-tweak-words" % cfg, run_session, cases, setup=psetup(cfg),
+              rule="ALL tweak words of length 1..3 over {plain,xonly} x {0, the t that makes y odd} containing at least one zero tweak (zero x-only tweak on an odd-y key, followed by plain / x-only tweaks); same byte-exact comparison as above")
         # ---- P2 every shape
         cases = [(s, w, mi, adp, src, order, None, True)
                  for (s, _) in shp for w in all_words(1) for mi in (0, 1) for adp in (0, 1)
